@@ -316,7 +316,7 @@ class C18(Prop):
     id = 'C18'
     title = 'P2P messages: framing, payload layout and stream parsing exact and invertible'
     lean_targets = ['BtcVerif.Props.C18']
-    table_groups = ['Chain', 'Messages']
+    table_groups = ['ChainNet', 'Messages']
     theorems = ['BtcVerif.C18.' + t for t in (
         'chain_magic_length', 'payload_eq_spec', 'frame_eq_spec', 'payload_roundtrip', 'parse_frame',
         'reframe_identical', 'parse_reframe', 'fromBytes_frame', 'parse_stream', 'parse_stream_append', 'bad_magic_rejected',
